@@ -46,7 +46,8 @@ def gen_program(rng, n, p_fail=0.15, p_batch=0.3, p_ctx=0.3, max_kids=3):
 
 def ctx_dict(c):
     # 0: the explicit empty dictionary; 3: an entry whose value is None (not the same context as the empty one)
-    return None if c is None else ({} if c == 0 else ({"c": None} if c == 3 else {"c": c}))
+    # 4, 5: values that Python considers equal to 1 but that are different context arguments
+    return None if c is None else ({} if c == 0 else ({"c": None} if c == 3 else ({"c": True} if c == 4 else ({"c": 1.0} if c == 5 else {"c": c}))))
 
 
 def spec_of(prog, i, memo=None):
@@ -157,7 +158,7 @@ class Runner:
             kw = x.effective_kwargs if hasattr(x, "effective_kwargs") else x.kwargs
             sid = (kw.get("spec") or (x.args[0] if x.args else {})).get("id")
             ca = x.context_args or {}
-            c = (3 if ca["c"] is None else ca["c"]) if "c" in ca else 0
+            c = (3 if ca["c"] is None else 4 if ca["c"] is True else 5 if isinstance(ca["c"], float) else ca["c"]) if "c" in ca else 0
             invs.append((sid, c))
         deps = sorted({FN_NAMES.index(d.qualified_name.split(":")[-1].split("#")[0]) for d in mm.function_dependencies})
         return {"invocations": invs, "deps": deps, "result_type": mm.invocation_metadata.result_type.name}
